@@ -16,12 +16,14 @@ Lemma nlen_nil {A} : nlen (@nil A) = 0.
 Proof. reflexivity. Qed.
 Lemma nlen_cons {A} (x : A) l : nlen (x :: l) = nlen l + 1.
 Proof. unfold nlen. cbn [length]. lia. Qed.
+Lemma nlen_one {A} (x : A) : nlen [x] = 1.
+Proof. reflexivity. Qed.
 Lemma nlen_app {A} (a b : list A) : nlen (a ++ b) = nlen a + nlen b.
 Proof. unfold nlen. rewrite app_length. lia. Qed.
 Lemma nlen_0 {A} (l : list A) : nlen l = 0 -> l = [].
 Proof. destruct l; [reflexivity|rewrite nlen_cons; lia]. Qed.
 
-Definition ievent := (N * fevent)%type.
+Notation ievent := (N * fevent)%type.
 
 (* ids b, b+1, b+2, ... *)
 Fixpoint consec (b : N) (l : list ievent) : Prop :=
@@ -143,3 +145,376 @@ Lemma prefix_refl {A} (a : list A) : prefix a a.
 Proof. exists []. now rewrite app_nil_r. Qed.
 Lemma prefix_app_r {A} (a b c : list A) : prefix a b -> prefix a (b ++ c).
 Proof. intros [r ->]. exists (r ++ c). now rewrite app_assoc. Qed.
+
+(* ------------------------------------------------------------------ *)
+(* 2. the invariant                                                    *)
+(* ------------------------------------------------------------------ *)
+
+Definition Eof (s : fstate) : list ievent := proj (a_epoch s) (emitted s).
+Definition Aof (s : fstate) : list ievent := proj (a_epoch s) (applied s).
+
+(* the session B holds is the one A's peer presents: the events of the current epoch are
+   E = D ++ C ++ U - D handled and acknowledged by B's loop (|D| = nextEventID), C in
+   flight, U not yet sent on this stream; what B applied is D, or D and the next event
+   (applied, ack not sent: its id is in the LRU) *)
+Definition MI (E A : list ievent) (ep : N) (up : bool) (cs : list tagged) (sc : list N)
+           (rd : option N) (nx : N) (seen : list N) (pre : list ievent) : Prop :=
+  exists D C U,
+    E = D ++ C ++ U /\ nlen D = nx /\ nlen pre <= nlen D /\ cs = map (tag ep) C /\
+    (up = true -> rd = head_id U) /\
+    (up = false -> C = [] /\ (rd = None \/ exists r, rd = Some r /\ nx <= r)) /\
+    (A = D \/ exists x e rest, C ++ U = (x, e) :: rest /\ A = D ++ [(x, e)] /\ In nx seen) /\
+    (forall i, In i seen -> i < nlen A) /\
+    (forall i, In i sc -> i < nx).
+
+(* the queue holds the events of the current epoch minus an acknowledged front part *)
+Definition QI (E A : list ievent) (ep : N) (up : bool) (cs : list tagged) (sc : list N)
+           (q : equeue) (sess : option fsession) (sid : N) : Prop :=
+  exists pre,
+    E = pre ++ evq_l q /\ consec 0 E /\ evq_next q = nlen E /\ evq_bad q = false /\
+    (evq_read q = None \/ exists r, evq_read q = Some r /\ nlen pre <= r /\ r < nlen E) /\
+    match sess with
+    | Some se => if fs_id se =? sid then MI E A ep up cs sc (evq_read q) (fs_next se) (fs_seen se) pre else up = false
+    | None => up = false
+    end.
+
+Definition INV (s : fstate) : Prop :=
+  (forall e, prefix (proj e (applied s)) (proj e (emitted s))) /\
+  (forall t, In t (emitted s) -> fst (fst t) <= a_epoch s) /\
+  (forall t, In t (applied s) -> fst (fst t) <= a_epoch s) /\
+  (forall t, In t (c2s s) -> fst (fst t) = a_epoch s) /\
+  (st_up s = false -> c2s s = [] /\ s2c s = []) /\
+  (forall se, fb_sess s = Some se -> fs_id se < a_sidctr s /\ fb_peer s = true) /\
+  match a_peer s with
+  | None => st_up s = false
+  | Some p => p_sid p < a_sidctr s /\
+              QI (Eof s) (Aof s) (a_epoch s) (st_up s) (c2s s) (s2c s) (p_q p) (fb_sess s) (p_sid p)
+  end.
+
+Ltac sfields :=
+  cbn [a_index a_topics a_ret a_peer a_sidctr a_epoch st_up c2s s2c fb_peer fb_sess fb_fed fb_ret fb_ops
+       emitted applied published handled set_local set_peer set_stream set_server add_handled
+       p_sid p_q evq_next evq_l evq_read evq_closed evq_bad fs_id fs_next fs_seen] in *.
+
+Lemma INV_init ret : INV (fq_init ret).
+Proof.
+  unfold INV, fq_init. sfields.
+  split; [intros e; apply prefix_refl|]. split; [intros t []|]. split; [intros t []|]. split; [intros t []|].
+  split; [intros _; now split|]. split; [intros se H; discriminate|reflexivity].
+Qed.
+
+Lemma INV_set_local ix tp s : INV s -> INV (set_local ix tp s).
+Proof. intros H. exact H. Qed.
+
+(* ---- emitting an event ---- *)
+Lemma MI_emit E A ep up cs sc rd nx seen pre x :
+  MI E A ep up cs sc rd nx seen pre -> consec 0 E -> fst x = nlen E ->
+  MI (E ++ [x]) A ep up cs sc (match rd with None => Some (fst x) | r => r end) nx seen pre.
+Proof.
+  intros (D & C & U & HD & HnD & Hpd & Hc2 & Hup & Hdn & HA & Hseen & Hs2) Hcons Hx.
+  exists D, C, (U ++ [x]).
+  split; [rewrite HD, <- !app_assoc; reflexivity|]. split; [exact HnD|]. split; [exact Hpd|]. split; [exact Hc2|].
+  split.
+  { intros Hu. rewrite (Hup Hu). destruct U as [|[i e'] U']; [destruct x|]; reflexivity. }
+  split.
+  { intros Hd. destruct (Hdn Hd) as [-> Hr]. split; [reflexivity|]. right.
+    destruct Hr as [->|(r & -> & Hr)].
+    - exists (fst x). split; [reflexivity|]. rewrite Hx, HD, !nlen_app. lia.
+    - exists r. now split. }
+  split; [|split; [exact Hseen|exact Hs2]].
+  destruct HA as [HA|(y & e' & rest & HCU & HA & Hin)]; [now left|right].
+  exists y, e', (rest ++ [x]). split; [rewrite app_assoc, HCU; reflexivity|now split].
+Qed.
+
+Lemma QI_emit E A ep up cs sc q sess sid e :
+  QI E A ep up cs sc q sess sid -> QI (E ++ [(evq_next q, e)]) A ep up cs sc (eq_add e q) sess sid.
+Proof.
+  intros (pre & HEq & Hcons & Hnext & Hbad & Hread & Hm). unfold eq_add. exists pre. sfields.
+  split; [rewrite HEq at 1; now rewrite app_assoc|].
+  split; [apply consec_app; split; [exact Hcons|cbn [consec]; rewrite Hnext; split; [lia|exact I]]|].
+  split; [rewrite nlen_app, Hnext; reflexivity|]. split; [exact Hbad|].
+  split.
+  { right. destruct Hread as [->|(r & -> & H1 & H2)].
+    - exists (evq_next q). split; [reflexivity|]. rewrite nlen_app, Hnext.
+      assert (nlen pre <= nlen E) by (rewrite HEq, nlen_app; lia). rewrite nlen_one. lia.
+    - exists r. split; [reflexivity|]. rewrite nlen_app. lia. }
+  destruct sess as [se|]; [|exact Hm]. destruct (fs_id se =? sid); [|exact Hm].
+  pose proof (MI_emit E A ep up cs sc (evq_read q) (fs_next se) (fs_seen se) pre (evq_next q, e) Hm Hcons Hnext) as H.
+  cbn [fst] in H. destruct (evq_read q); exact H.
+Qed.
+
+Lemma INV_emit1 e s : INV s -> INV (emit1 e s).
+Proof.
+  intros H. unfold emit1. destruct (a_peer s) as [p|] eqn:Hp; [|exact H].
+  destruct H as (Hpre & Hem & Hap & Hc & Hdown & Hsess & Hq). rewrite Hp in Hq. destruct Hq as [Hsid Hq].
+  unfold INV. sfields.
+  assert (HE : proj (a_epoch s) (emitted s ++ [(a_epoch s, evq_next (p_q p), e)]) = Eof s ++ [(evq_next (p_q p), e)]).
+  { rewrite proj_app, proj_one_same. reflexivity. }
+  split; [|split; [|split; [exact Hap|split; [exact Hc|split; [exact Hdown|split; [exact Hsess|split; [exact Hsid|]]]]]]].
+  - intros ep. rewrite proj_app. now apply prefix_app_r.
+  - intros t Ht. apply in_app_or in Ht as [Ht|[<-|[]]]; [now apply Hem|cbn [fst]; lia].
+  - unfold Eof, Aof. sfields. rewrite HE. now apply QI_emit.
+Qed.
+
+Lemma INV_emit_list es s : INV s -> INV (emit_list es s).
+Proof. unfold emit_list. revert s. induction es as [|e r IH]; intros s H; cbn [fold_left]; [exact H|]. apply IH. now apply INV_emit1. Qed.
+
+(* ---- closing / opening the queue does not matter ---- *)
+Lemma QI_closed E A ep up cs sc q sess sid b :
+  QI E A ep up cs sc q sess sid -> QI E A ep up cs sc (eq_set_closed b q) sess sid.
+Proof. intros H. exact H. Qed.
+
+(* ---- cutting the stream ---- *)
+Lemma MI_cut E A ep cs sc rd nx seen pre :
+  MI E A ep true cs sc rd nx seen pre -> consec 0 E -> MI E A ep false [] [] rd nx seen pre.
+Proof.
+  intros (D & C & U & HD & HnD & Hpd & Hc2 & Hup & Hdn & HA & Hseen & Hs2) Hcons.
+  exists D, [], (C ++ U). cbn [app map].
+  split; [exact HD|]. split; [exact HnD|]. split; [exact Hpd|]. split; [reflexivity|].
+  split; [discriminate|]. split.
+  { intros _. split; [reflexivity|]. rewrite (Hup eq_refl). destruct U as [|[r e] U']; [now left|right].
+    exists r. split; [reflexivity|]. rewrite HD, app_assoc in Hcons. apply consec_head in Hcons.
+    rewrite nlen_app in Hcons. lia. }
+  split; [exact HA|]. split; [exact Hseen|intros i []].
+Qed.
+
+Lemma QI_cut E A ep up cs sc q sess sid :
+  QI E A ep up cs sc q sess sid -> QI E A ep false [] [] q sess sid.
+Proof.
+  intros (pre & HEq & Hcons & Hnext & Hbad & Hread & Hm). exists pre.
+  split; [exact HEq|]. split; [exact Hcons|]. split; [exact Hnext|]. split; [exact Hbad|]. split; [exact Hread|].
+  destruct sess as [se|]; [|reflexivity]. destruct (fs_id se =? sid); [|reflexivity].
+  destruct up; [now apply MI_cut with (cs := cs) (sc := sc)|].
+  destruct Hm as (D & C & U & HD & HnD & Hpd & Hc2 & Hup & Hdn & HA & Hseen & Hs2).
+  destruct (Hdn eq_refl) as [-> Hr]. exists D, [], U. cbn [map app] in *.
+  split; [exact HD|]. split; [exact HnD|]. split; [exact Hpd|]. split; [reflexivity|]. split; [discriminate|].
+  split; [intros _; now split|]. split; [exact HA|]. split; [exact Hseen|intros i []].
+Qed.
+
+Lemma set_queue_some q s p : a_peer s = Some p ->
+  set_queue q s = set_peer (Some {| p_sid := p_sid p; p_q := q |}) (a_sidctr s) (a_epoch s) (emitted s) s.
+Proof. intros H. unfold set_queue. now rewrite H. Qed.
+
+Lemma INV_cut s : INV s -> INV (fq_cut s).
+Proof.
+  intros H. unfold fq_cut. destruct (st_up s) eqn:Hup; [|exact H].
+  destruct H as (Hpre & Hem & Hap & Hc & Hdown & Hsess & Hq).
+  destruct (a_peer s) as [p|] eqn:Hp; [|congruence]. destruct Hq as [Hsid Hq].
+  sfields. rewrite Hp. rewrite (set_queue_some _ _ p) by (sfields; exact Hp).
+  unfold INV, Eof, Aof. sfields.
+  split; [exact Hpre|]. split; [exact Hem|]. split; [exact Hap|]. split; [intros t []|].
+  split; [intros _; now split|]. split; [exact Hsess|]. split; [exact Hsid|].
+  apply QI_closed. eapply QI_cut; exact Hq.
+Qed.
+
+(* ---- one sendEvents iteration ---- *)
+Lemma eq_fetch_events q batch q' : eq_fetch q = (FEvents batch, q') ->
+  exists r, evq_read q = Some r /\ batch = firstn FETCH_MAX (drop_until r (evq_l q)) /\
+    q' = {| evq_next := evq_next q; evq_l := evq_l q;
+            evq_read := head_id (skipn FETCH_MAX (drop_until r (evq_l q)));
+            evq_closed := evq_closed q; evq_bad := evq_bad q |}.
+Proof.
+  unfold eq_fetch. destruct (evq_closed q); [discriminate|].
+  destruct (evq_l q) as [|x l] eqn:Hl; [discriminate|]. destruct (evq_read q) as [r|]; [|discriminate].
+  intros H. injection H as <- <-. exists r. split; [reflexivity|]. split; [reflexivity|]. reflexivity.
+Qed.
+
+Lemma eq_fetch_other q x q' : eq_fetch q = (x, q') -> (forall b, x <> FEvents b) -> q' = q.
+Proof.
+  unfold eq_fetch. destruct (evq_closed q); [intros H; now injection H|].
+  destruct (evq_l q) as [|y l]; [intros H; now injection H|]. destruct (evq_read q) as [r|]; [|intros H; now injection H].
+  intros H Hne. injection H as <- _. now destruct (Hne _ eq_refl).
+Qed.
+
+Lemma MI_send E A ep cs sc r nx seen pre L k :
+  MI E A ep true cs sc (Some r) nx seen pre -> E = pre ++ L -> consec 0 E ->
+  MI E A ep true (cs ++ map (tag ep) (firstn k (drop_until r L))) sc (head_id (skipn k (drop_until r L))) nx seen pre.
+Proof.
+  intros (D & C & U & HD & HnD & Hpd & Hc2 & Hup & Hdn & HA & Hseen & Hs2) HEq Hcons.
+  pose proof (Hup eq_refl) as Hr. destruct U as [|[r' e0] U1]; [discriminate|]. cbn [head_id] in Hr. injection Hr as <-.
+  assert (Hsplit : exists l1, L = l1 ++ (r, e0) :: U1 /\ D ++ C = pre ++ l1).
+  { apply app_eq_prefix; [rewrite <- HEq, HD, app_assoc; reflexivity|].
+    assert (nlen pre <= nlen (D ++ C)) by (rewrite nlen_app; lia). unfold nlen in *. lia. }
+  destruct Hsplit as (l1 & HL & HDC).
+  assert (Hdrop : drop_until r L = (r, e0) :: U1).
+  { rewrite HL. pose proof Hcons as Hc'. rewrite HEq, HL in Hc'. apply consec_app in Hc' as [_ Hc'].
+    pose proof (consec_head _ _ _ _ _ Hc') as Hrr. rewrite Hrr at 1. apply drop_until_consec; [exact Hc'|discriminate]. }
+  rewrite Hdrop. set (U0 := (r, e0) :: U1) in *.
+  exists D, (C ++ firstn k U0), (skipn k U0).
+  split; [rewrite <- app_assoc, firstn_skipn; exact HD|]. split; [exact HnD|]. split; [exact Hpd|].
+  split; [rewrite map_app, Hc2; reflexivity|]. split; [reflexivity|]. split; [discriminate|].
+  split; [|split; [exact Hseen|exact Hs2]].
+  rewrite <- app_assoc, firstn_skipn. exact HA.
+Qed.
+
+Lemma QI_send E A ep cs sc q sess sid batch q' :
+  QI E A ep true cs sc q sess sid -> eq_fetch q = (FEvents batch, q') ->
+  QI E A ep true (cs ++ map (tag ep) batch) sc q' sess sid.
+Proof.
+  intros (pre & HEq & Hcons & Hnext & Hbad & Hread & Hm) Hf.
+  destruct (eq_fetch_events _ _ _ Hf) as (r & Hr & -> & ->).
+  destruct sess as [se|]; [|discriminate]. destruct (fs_id se =? sid) eqn:Hid; [|discriminate].
+  rewrite Hr in Hm. pose proof (MI_send _ _ _ _ _ _ _ _ _ _ FETCH_MAX Hm HEq Hcons) as Hm'.
+  exists pre. sfields. rewrite Hid.
+  split; [exact HEq|]. split; [exact Hcons|]. split; [exact Hnext|]. split; [exact Hbad|]. split; [|exact Hm'].
+  (* the new read position is the head of the unsent part *)
+  destruct Hm' as (D & C & U & HD & HnD & Hpd & Hc2 & Hup & _).
+  rewrite (Hup eq_refl). destruct U as [|[i e] U']; [now left|right]. exists i. split; [reflexivity|].
+  pose proof Hcons as Hc'. rewrite HD, app_assoc in Hc'. apply consec_head in Hc'.
+  rewrite HD, !nlen_app, nlen_cons. rewrite nlen_app in Hc'. lia.
+Qed.
+
+Lemma INV_send s : INV s -> INV (fq_send s).
+Proof.
+  intros H. unfold fq_send. destruct (st_up s) eqn:Hup; [|exact H].
+  destruct (a_peer s) as [p|] eqn:Hp; [|exact H].
+  destruct (eq_fetch (p_q p)) as [[| |batch] q'] eqn:Hf; try exact H.
+  (* the state in which the whole batch is in flight *)
+  set (s1 := set_queue q' s).
+  set (s2 := set_stream true (c2s s1 ++ map (fun ie : ievent => (a_epoch s1, fst ie, snd ie)) batch) (s2c s1) s1).
+  assert (H2 : INV s2).
+  { destruct H as (Hpre & Hem & Hap & Hc & Hdown & Hsess & Hq). rewrite Hp in Hq. destruct Hq as [Hsid Hq].
+    subst s2 s1. rewrite (set_queue_some _ _ p Hp). unfold INV, Eof, Aof. sfields. rewrite Hup in Hq.
+    split; [exact Hpre|]. split; [exact Hem|]. split; [exact Hap|].
+    split. { intros t Ht. apply in_app_or in Ht as [Ht|Ht]; [now apply Hc|].
+             apply in_map_iff in Ht as (ie & <- & _). reflexivity. }
+    split; [discriminate|]. split; [exact Hsess|]. split; [exact Hsid|].
+    exact (QI_send _ _ _ _ _ _ _ _ _ _ Hq Hf). }
+  destruct (forallb (fun ie : ievent => marshal_ok (snd ie)) batch); [exact H2|].
+  replace (fq_cut s1) with (fq_cut s2); [now apply INV_cut|].
+  subst s2 s1. rewrite (set_queue_some _ _ p Hp). unfold fq_cut. sfields. now rewrite Hup.
+Qed.
+
+(* ---- one EventStream iteration ---- *)
+Lemma tag_inj ep a b : tag ep a = tag ep b -> a = b.
+Proof. destruct a, b. unfold tag. cbn [fst snd]. intros H. now injection H as -> ->. Qed.
+
+Lemma MI_deliver E A ep id e cs' sc rd nx seen pre :
+  MI E A ep true ((ep, id, e) :: cs') sc rd nx seen pre -> consec 0 E ->
+  let dup := fst (lru_set id seen) in
+  let seen' := snd (lru_set id seen) in
+  let A' := if dup then A else A ++ [(id, e)] in
+  id = nx /\ prefix A' E /\
+  MI E A' ep true cs' (sc ++ [id]) rd (id + 1) seen' pre /\
+  MI E A' ep false [] [] rd nx seen' pre.
+Proof.
+  intros (D & C & U & HD & HnD & Hpd & Hc2 & Hup & Hdn & HA & Hseen & Hs2) Hcons.
+  destruct C as [|[id' e'] C']; [discriminate|]. cbn [map] in Hc2. injection Hc2 as Hid He Hc2. cbn [fst snd] in Hid, He. subst id' e'.
+  assert (Hidx : id = nlen D).
+  { pose proof Hcons as Hc'. rewrite HD in Hc'. cbn [app] in Hc'. apply consec_head in Hc'. lia. }
+  cbv zeta.
+  assert (Hcases : (A = D /\ lru_set id seen = (false, (if Nat.eqb (length seen) LRU_SIZE then tl seen else seen) ++ [id])) \/
+                   (A = D ++ [(id, e)] /\ lru_set id seen = (true, seen) /\ In id seen)).
+  { destruct HA as [HA|(x & e0 & rest & HCU & HA & Hin)].
+    - left. split; [exact HA|]. unfold lru_set. destruct (mem_n id seen) eqn:Hm; [|reflexivity].
+      apply mem_n_In in Hm. apply Hseen in Hm. rewrite HA in Hm. lia.
+    - right. cbn [app] in HCU. injection HCU as <- <- _. rewrite <- HnD, <- Hidx in Hin.
+      split; [exact HA|]. split; [|exact Hin]. unfold lru_set. apply mem_n_In in Hin. now rewrite Hin. }
+  split; [lia|].
+  assert (HE' : E = (D ++ [(id, e)]) ++ C' ++ U) by (rewrite HD, <- app_assoc; reflexivity).
+  destruct Hcases as [[HAD Hl]|(HAD & Hl & Hin)]; rewrite Hl; cbn [fst snd].
+  - (* applied now *)
+    split; [exists (C' ++ U); rewrite HAD; exact HE'|].
+    assert (Hseen' : forall i, In i ((if Nat.eqb (length seen) LRU_SIZE then tl seen else seen) ++ [id]) -> i < nlen (A ++ [(id, e)])).
+    { intros i Hi. rewrite nlen_app, nlen_one. apply in_app_or in Hi as [Hi|[<-|[]]].
+      - assert (In i seen) by (destruct (Nat.eqb (length seen) LRU_SIZE); [now apply In_tl|exact Hi]).
+        apply Hseen in H. lia.
+      - rewrite HAD. lia. }
+    split.
+    + exists (D ++ [(id, e)]), C', U. split; [exact HE'|]. split; [rewrite nlen_app, nlen_one; lia|].
+      split; [rewrite nlen_app; lia|]. split; [exact Hc2|]. split; [exact Hup|]. split; [discriminate|].
+      split; [left; now rewrite HAD|]. split; [exact Hseen'|].
+      intros i Hi. apply in_app_or in Hi as [Hi|[<-|[]]]; [apply Hs2 in Hi; lia|lia].
+    + exists D, [], ((id, e) :: C' ++ U). cbn [app map].
+      split; [exact HD|]. split; [exact HnD|]. split; [exact Hpd|]. split; [reflexivity|]. split; [discriminate|].
+      split.
+      { intros _. split; [reflexivity|]. rewrite (Hup eq_refl). destruct U as [|[r e0] U']; [now left|right].
+        exists r. split; [reflexivity|]. pose proof Hcons as Hc'. rewrite HD, app_assoc in Hc'. apply consec_head in Hc'.
+        rewrite nlen_app in Hc'. lia. }
+      split.
+      { right. exists id, e, (C' ++ U). split; [reflexivity|]. split; [now rewrite HAD|].
+        apply in_or_app. right. left. lia. }
+      split; [exact Hseen'|intros i []].
+  - (* duplicate: suppressed *)
+    split; [exists (C' ++ U); rewrite HAD; exact HE'|].
+    split.
+    + exists (D ++ [(id, e)]), C', U. split; [exact HE'|]. split; [rewrite nlen_app, nlen_one; lia|].
+      split; [rewrite nlen_app; lia|]. split; [exact Hc2|]. split; [exact Hup|]. split; [discriminate|].
+      split; [now left|]. split; [exact Hseen|].
+      intros i Hi. apply in_app_or in Hi as [Hi|[<-|[]]]; [apply Hs2 in Hi; lia|lia].
+    + exists D, [], ((id, e) :: C' ++ U). cbn [app map].
+      split; [exact HD|]. split; [exact HnD|]. split; [exact Hpd|]. split; [reflexivity|]. split; [discriminate|].
+      split.
+      { intros _. split; [reflexivity|]. rewrite (Hup eq_refl). destruct U as [|[r e0] U']; [now left|right].
+        exists r. split; [reflexivity|]. pose proof Hcons as Hc'. rewrite HD, app_assoc in Hc'. apply consec_head in Hc'.
+        rewrite nlen_app in Hc'. lia. }
+      split.
+      { right. exists id, e, (C' ++ U). split; [reflexivity|]. split; [exact HAD|]. rewrite <- HnD, <- Hidx. exact Hin. }
+      split; [exact Hseen|intros i []].
+Qed.
+
+(* what the invariant depends on *)
+Definition core (s : fstate) :=
+  (a_peer s, a_sidctr s, a_epoch s, st_up s, c2s s, s2c s, fb_peer s, fb_sess s, emitted s, applied s).
+
+Lemma INV_core s s' : core s = core s' -> INV s -> INV s'.
+Proof.
+  unfold core. intros H. injection H as H1 H2 H3 H4 H5 H6 H7 H8 H9 H10.
+  unfold INV, Eof, Aof. now rewrite H1, H2, H3, H4, H5, H6, H7, H8, H9, H10.
+Qed.
+
+Lemma proj_snoc_other ep ep' l id e : ep' <> ep -> proj ep (l ++ [(ep', id, e)]) = proj ep l.
+Proof. intros H. rewrite proj_app, proj_one_other by exact H. apply app_nil_r. Qed.
+
+Lemma proj_snoc_same ep l id e : proj ep (l ++ [(ep, id, e)]) = proj ep l ++ [(id, e)].
+Proof. now rewrite proj_app, proj_one_same. Qed.
+
+Lemma INV_deliver b s : INV s -> INV (fq_deliver b s).
+Proof.
+  intros H. unfold fq_deliver. destruct (st_up s) eqn:Hup; [|exact H].
+  destruct H as (Hpre & Hem & Hap & Hc & Hdown & Hsess & Hq).
+  destruct (c2s s) as [|[[ep id] e] rest] eqn:Hcs; [unfold INV; now rewrite Hcs|].
+  destruct (fb_sess s) as [se|] eqn:Hse; [|unfold INV; now rewrite Hcs, Hse].
+  destruct (a_peer s) as [p|] eqn:Hp; [|congruence]. destruct Hq as [Hsid Hq]. rewrite Hup, Hcs, Hse in Hq.
+  assert (Hep : ep = a_epoch s) by (apply (Hc (ep, id, e)); now left). subst ep.
+  destruct Hq as (pre & HEq & Hcons & Hnext & Hbad & Hread & Hm).
+  destruct (fs_id se =? p_sid p) eqn:Hmatch; [|congruence].
+  destruct (MI_deliver _ _ _ _ _ _ _ _ _ _ _ Hm Hcons) as (Hidn & HpreA & Hok & Hfail).
+  destruct (lru_set id (fs_seen se)) as [dup seen'] eqn:Hl. cbn [fst snd] in HpreA, Hok, Hfail.
+  set (ap' := if dup then applied s else applied s ++ [(a_epoch s, id, e)]).
+  assert (HA' : proj (a_epoch s) ap' = (if dup then Aof s else Aof s ++ [(id, e)])).
+  { subst ap'. destruct dup; [reflexivity|]. apply proj_snoc_same. }
+  assert (Hpre' : forall e0, prefix (proj e0 ap') (proj e0 (emitted s))).
+  { intros e0. destruct (N.eq_dec e0 (a_epoch s)) as [->|Hne].
+    - rewrite HA'. exact HpreA.
+    - subst ap'. destruct dup; [apply Hpre|]. rewrite proj_snoc_other by congruence. apply Hpre. }
+  assert (Hap' : forall t, In t ap' -> fst (fst t) <= a_epoch s).
+  { subst ap'. intros t Ht. destruct dup; [now apply Hap|].
+    apply in_app_or in Ht as [Ht|[<-|[]]]; [now apply Hap|cbn [fst]; lia]. }
+  destruct (Hsess se eq_refl) as [Hsidse Hbp].
+  destruct b.
+  - (* the ack is sent: nextEventID advances *)
+    apply INV_core with (s := set_server (fb_peer s) (Some {| fs_id := fs_id se; fs_next := id + 1; fs_seen := seen' |})
+                                        (fb_fed s) (fb_ret s) (fb_ops s) ap' (published s)
+                                        (set_stream true rest (s2c s ++ [id]) s)).
+    { subst ap'. destruct dup; [reflexivity|]. destruct e; reflexivity. }
+    unfold INV, Eof, Aof. sfields. rewrite Hp.
+    split; [exact Hpre'|]. split; [exact Hem|]. split; [exact Hap'|].
+    split; [intros t Ht; apply Hc; now right|]. split; [discriminate|].
+    split; [intros se' Hs'; injection Hs' as <-; now split|]. split; [exact Hsid|].
+    exists pre. sfields. rewrite Hmatch, HA'. fold (Eof s).
+    split; [exact HEq|]. split; [exact Hcons|]. split; [exact Hnext|]. split; [exact Hbad|]. split; [exact Hread|exact Hok].
+  - (* the ack cannot be sent: the stream is gone, nextEventID stays *)
+    apply INV_core with (s := set_peer (Some {| p_sid := p_sid p; p_q := eq_set_closed true (p_q p) |}) (a_sidctr s) (a_epoch s) (emitted s)
+                                (set_server (fb_peer s) (Some {| fs_id := fs_id se; fs_next := fs_next se; fs_seen := seen' |})
+                                        (fb_fed s) (fb_ret s) (fb_ops s) ap' (published s)
+                                        (set_stream false [] [] s))).
+    { subst ap'. unfold fq_cut. destruct dup; [sfields; rewrite Hup; sfields; rewrite Hp; reflexivity|].
+      destruct e; unfold apply_event, fed_op; sfields; rewrite Hup; sfields; rewrite Hp; reflexivity. }
+    unfold INV, Eof, Aof. sfields.
+    split; [exact Hpre'|]. split; [exact Hem|]. split; [exact Hap'|].
+    split; [intros t []|]. split; [intros _; now split|].
+    split; [intros se' Hs'; injection Hs' as <-; now split|]. split; [exact Hsid|].
+    exists pre. sfields. rewrite Hmatch, HA'. fold (Eof s).
+    split; [exact HEq|]. split; [exact Hcons|]. split; [exact Hnext|]. split; [exact Hbad|]. split; [exact Hread|exact Hfail].
+Qed.
